@@ -759,7 +759,7 @@ where
     alias_random_structural::<W>(ctx, if thorough { 200_000 } else { 6_000 });
     let fast_profile = !cfg!(debug_assertions);
     if fast_profile {
-        alias_sampling::<W>(ctx, if thorough { 400 } else { 24 }, if thorough { 8_000_000 } else { 1_600_000 });
+        alias_sampling::<W>(ctx, if thorough { 500 } else { 60 }, if thorough { 8_000_000 } else { 1_600_000 });
     } else {
         alias_sampling::<W>(ctx, 6, 160_000);
     }
@@ -1404,7 +1404,7 @@ where
 {
     let t = ctx.thorough();
     let checked = cfg!(debug_assertions);
-    let states = if checked { 40 } else if t { 600 } else { 60 };
+    let states = if checked { 40 } else if t { 900 } else { 150 };
     let n: u64 = if checked { 80_000 } else if t { 8_000_000 } else { 1_600_000 };
     let lat = lattice();
     let mut r = BaseRng::from_env(hseed(&[ctx.seed, crate::rng::hstr(W::NAME), 0xC10]));
